@@ -3,6 +3,7 @@ package checks
 import (
 	"fmt"
 
+	"verif/explore"
 	"verif/hapi"
 )
 
@@ -175,6 +176,34 @@ func c02SchedSpecs(quick bool) []*EngSpec {
 	return specs
 }
 
+// SeqOracleC02OneHold: a LockId has at most ONE hold on a key (re-entry adds depth to it, an unlock with
+// Rcount 0 ends it): after every step no key lists the same LockId in two holds.
+func SeqOracleC02OneHold(r *SeqRun) []explore.Violation {
+	var vs []explore.Violation
+	for si, st := range r.Steps {
+		if st.Snap == nil {
+			continue
+		}
+		for _, k := range st.Snap.Keys {
+			seen := map[[16]byte]int{}
+			for _, h := range k.Holds {
+				seen[h.LockId]++
+			}
+			for id, n := range seen {
+				if n > 1 {
+					how := "granted-at-once"
+					if st.Op.Cmd == nil || st.Op.Cmd.Type != 1 || st.Op.Cmd.Id != id[15] {
+						how = "granted-from-the-queue"
+					}
+					vs = append(vs, explore.Violation{Sig: "C02:lockid-holds-twice/" + how, Msg: fmt.Sprintf("step %d (%s): LockId %d owns %d separate holds of key %x (%s); an unlock with Rcount 0 ends only one of them", si+1, st.Op, id[15], n, k.Key[15], holdsStr(k))})
+					return vs
+				}
+			}
+		}
+	}
+	return vs
+}
+
 func init() {
 	comboCheck(comboDef{id: "C02", level: "model_checking",
 		enum: func(q bool) []*EnumPlan {
@@ -189,7 +218,7 @@ func init() {
 			}, MaxExec: schedCap(4000)}
 		},
 		seq: func(q bool) *SeqPlan {
-			return &SeqPlan{Specs: c02Specs(q), Oracles: []SeqOracle{OracleRefMem(RefOpts{Results: true, State: true, Counts: true, Prefix: "C02"}), OracleFullVsMem("C02")}}
+			return &SeqPlan{Specs: c02Specs(q), Oracles: []SeqOracle{OracleRefMem(RefOpts{Results: true, State: true, Counts: true, Prefix: "C02"}), OracleFullVsMem("C02"), SeqOracleC02OneHold}}
 		},
 		rule: "schedule DFS (<=2/3 deviations) of two or three concurrent requests about one LockId (unlock vs cancel-wait, unlock vs re-lock, double unlock, unlock-first vs unlock, two cancels): replies and the holders / queue at quiescence must equal the outcome of SOME sequential order of the requests on the reference model (all orders enumerated); non-trivial = at least two client threads answered",
 		note: "histories: explicit-state breadth-first search over operation histories; every transition is an execution of the real engine (fresh instance, history replayed under the default schedule, virtual time); states are deduplicated by a canonical key of the engine state (holders with their owning connection, waiters, values, re-check counters, wheel placement, relative deadlines; request ids dropped); each step is compared with the RefLockDB reference (result codes, LCount/LRCount, holder depths, queue order)",
